@@ -162,27 +162,48 @@ def kani_build(work, harnesses):
 
 
 def _limits(mem_gb):
+    """Own process group (so a timeout can kill the whole tree). No RLIMIT_AS: CBMC/CaDiCaL reserve
+    far more address space than they touch, and an address-space cap made 40-second harnesses fail with
+    'out of memory'; resident memory is policed by the watchdog in run_cmd instead."""
     def f():
-        lim = int(mem_gb * (1 << 30))
-        resource.setrlimit(resource.RLIMIT_AS, (lim, lim))
         os.setsid()
     return f
 
 
+def _rss_gb(pid):
+    try:
+        for ln in open(f"/proc/{pid}/status"):
+            if ln.startswith("VmRSS:"):
+                return int(ln.split()[1]) / (1 << 20)
+    except OSError:
+        pass
+    return 0.0
+
+
 def run_cmd(cmd, logf, timeout, mem_gb=12, stdout_path=None):
+    """Run cmd under a wall-clock limit and a resident-memory limit (polled). rc: exit status,
+    'timeout' or 'oom'."""
     t0 = time.time()
     so = open(stdout_path, "w") if stdout_path else logf
+    rc = None
     try:
         p = subprocess.Popen(cmd, stdout=so, stderr=logf, preexec_fn=_limits(mem_gb))
-        try:
-            rc = p.wait(timeout=timeout)
-        except subprocess.TimeoutExpired:
+        while True:
             try:
-                os.killpg(p.pid, signal.SIGKILL)
-            except ProcessLookupError:
+                rc = p.wait(timeout=2)
+                break
+            except subprocess.TimeoutExpired:
                 pass
-            p.wait()
-            rc = "timeout"
+            over_time = time.time() - t0 > timeout
+            over_mem = _rss_gb(p.pid) > mem_gb
+            if over_time or over_mem:
+                try:
+                    os.killpg(p.pid, signal.SIGKILL)
+                except ProcessLookupError:
+                    pass
+                p.wait()
+                rc = "timeout" if over_time else "oom"
+                break
     finally:
         if stdout_path:
             so.close()
@@ -192,9 +213,6 @@ def run_cmd(cmd, logf, timeout, mem_gb=12, stdout_path=None):
 CBMC_BASE = [
     "--no-malloc-may-fail", "--no-undefined-shift-check", "--no-signed-overflow-check", "--nan-check",
     "--no-self-loops-to-assumptions", "--no-pointer-primitive-check", "--object-bits", "16",
-    # arrays up to 128 elements stay field-sensitive: literal control bytes written into the
-    # reference-encoder buffers (<= 96 bytes) remain constants for symbolic execution
-    "--max-field-sensitivity-array-size", "128",
 ]
 
 
@@ -240,6 +258,10 @@ def verify_harness(work, spec, meta):
     if rc == "timeout":
         res["status"] = "TIMEOUT"
         res["detail"] = f"cbmc exceeded {spec.get('timeout', 600)} s"
+        return res
+    if rc == "oom":
+        res["status"] = "ERROR"
+        res["detail"] = f"cbmc exceeded {spec.get('mem_gb', 12)} GB resident memory (killed)"
         return res
     try:
         data = json.load(open(jpath))
@@ -348,7 +370,8 @@ def concrete_playback(work, spec):
         cmd += ["--no-memory-safety-checks"]
     # same CBMC field-sensitivity setting as the verification run (without it the trace run of a
     # 9-second harness needed 30 GB); must come last: --cbmc-args swallows the rest of the line
-    cmd += ["-Z", "unstable-options", "--cbmc-args", "--max-field-sensitivity-array-size", "128"] + spec.get("cbmc_args", [])
+    if spec.get("cbmc_args"):
+        cmd += ["-Z", "unstable-options", "--cbmc-args"] + spec.get("cbmc_args", [])
     logp = os.path.join(work.out, re.sub(r"[^A-Za-z0-9_]", "_", name), "playback_gen.log")
     with open(logp, "w") as lf:
         try:
